@@ -149,6 +149,12 @@ def _open_session_token(
         raw = base64.urlsafe_b64decode(padded.encode("ascii"))
     except Exception as exc:
         raise SessionLostError("malformed session token") from exc
+    # The decoder above is lenient: it skips characters outside the alphabet,
+    # accepts the standard alphabet and stray padding, and ignores unused
+    # trailing bits, so many different header values decode to one envelope.
+    # Only the exact text minted by ``_seal_session_token`` is a valid token.
+    if base64.urlsafe_b64encode(raw).rstrip(b"=").decode("ascii") != token:
+        raise SessionLostError("malformed session token")
 
     try:
         plaintext = crypto.open_bytes(raw, token_key, aad=aad, version=_TOKEN_VERSION)
